@@ -589,10 +589,21 @@ def _nondefault(defaults, **kw):
     return out
 
 
+def _opt_form(v, form):
+    """the option value `v` in the form named (canonical: Python bool / int)"""
+    import numpy as np
+    if form in (None, "bool", "int") and not (form == "int" and isinstance(v, bool)):
+        return v
+    return {"int": int, "np.bool_": np.bool_, "np.int64": np.int64, "np.int32": np.int32, "np.uint8": np.uint8}[form](v)
+
+
 def div_unitary(spec):
     import numpy as np
     import qclib.unitary as qu
-    n, dec, iso, a2, rot = spec["n"], spec["dec"], spec["iso"], spec["a2"], spec.get("rot", 0)
+    n, dec, iso0, a20, rot = spec["n"], spec["dec"], spec["iso"], spec["a2"], spec.get("rot", 0)
+    # the call under test hands apply_a2 / iso over in the form named (np.bool_, int 1 / 0, numpy integers); the references
+    # (est_ref, cx_ref, est_generic) and the tie use the canonical bool / int
+    iso, a2 = _opt_form(iso0, spec.get("isoform")), _opt_form(a20, spec.get("a2form"))
     base = div_matrix(spec["kind"], n, spec["seed"])
     ref = np.ascontiguousarray(np.asarray(base).astype(complex))
     x = div_form(base, spec["form"])
@@ -619,9 +630,12 @@ def div_unitary(spec):
         res["exact"] = _try(lambda: calls[cname](x, "exact"))
     res["cx"] = _try(lambda: cx_count(ctors[kname](x)))
     if isinstance(res["cx"], str):
-        res["cx_ref"] = _try(lambda: cx_count(qu.unitary(ref.copy(), dec, iso, a2)))
-    res["est_ref"] = _try(lambda: qu.cnot_count(ref.copy(), dec, "estimate", iso, a2))
-    res["est_generic"] = _try(lambda: qu.cnot_count(haar(2 ** n, spec["seed"] + 1), dec, "estimate", iso, a2))
+        res["cx_ref"] = _try(lambda: cx_count(qu.unitary(ref.copy(), dec, iso0, a20)))
+    res["est_ref"] = _try(lambda: qu.cnot_count(ref.copy(), dec, "estimate", iso0, a20))
+    res["est_generic"] = _try(lambda: qu.cnot_count(haar(2 ** n, spec["seed"] + 1), dec, "estimate", iso0, a20))
+    if spec.get("isoform") or spec.get("a2form"):
+        # the circuit built with the canonical values: the form must not change what is synthesised
+        res["cx_canon"] = _try(lambda: cx_count(qu.unitary(ref.copy(), dec, iso0, a20)))
     res["input_unchanged"] = _unchanged(x, snap)
     return res
 
@@ -742,8 +756,8 @@ def div_lowrank(spec):
     base = div_state(spec["kind"], n, spec["seed"], part0)
     ref = np.ascontiguousarray(np.asarray(base).astype(complex))
     x = div_form(base, spec["form"])
-    if spec.get("lrform") == "np.int64":
-        lr = np.int64(lr)
+    if spec.get("lrform") in ("np.int64", "np.int32", "np.uint8"):
+        lr = _opt_form(lr, spec["lrform"])
     part = _div_partition(part0, spec.get("pform", "list"))
     snap, psnap = _snap(x), _snap(part)
     res = {}
@@ -1498,11 +1512,46 @@ def div_lowrank_cases(ctx, out):
         out.add(ep="lowrank-host", n=n, kind="gauss", form="nd", fam="call-form")
 
 
+def div_flagform_cases(ctx, out):
+    """apply_a2 True and False as bool / numpy.bool_ / int 1, 0; iso = 0 (valid, falsy: "not an isometry"), the middle and n as int /
+    numpy.int64 / int32 - every call form of cnot_count (positional, keyword, shuffled keywords, defaults, the private estimate)
+    and of unitary() (they rotate with the case counter), at n = 2 (no recursion: size <= 4) and n = 3, 4 (recursive); low_rank = 0
+    handed over EXPLICITLY as int and numpy integers next to 1 and the top of the range, for lowrank.cnot_count and
+    LowRankInitialize.  Same oracle (estimate in every call form == canonical estimate == transpiled circuit) + circuit count ==
+    count of the circuit built with the canonical value; the tie op carries the canonical value."""
+    a2forms, isoforms = ("bool", "np.bool_", "int"), ("int", "np.int64", "np.int32")
+    k = ctx.rng.randrange(6)
+    for n in (2, 3, 4):
+        for dec in ("qsd", "csd"):
+            for a2 in (True, False):
+                for iso in sorted({0, n // 2, n}):
+                    if n >= 3 and not in_scope_unitary(dec, iso, a2):
+                        continue
+                    for j in range(3 if n <= 3 else 2):
+                        k += 1
+                        a2f, isof = a2forms[k % 3], isoforms[(k // 3) % 3]
+                        if n == 4 and a2f == "bool" and isof == "int":
+                            a2f = "np.bool_"
+                        out.add(ep="unitary", n=n, dec=dec, iso=iso, a2=a2, kind="haar", form=("nd", "F", "list")[(k + j) % 3], fam="flagforms",
+                                a2form=a2f, isoform=isof)
+    for n in (3, 4, 5):
+        top = 2 ** (n // 2)
+        for lr in sorted({0, 1, top}):
+            for j, lrf in enumerate(("int", "np.int64", "np.int32", "np.uint8")):
+                k += 1
+                s = {"lr": lr, "lrform": lrf, "flagform": True}
+                if (k + j) % 2:
+                    s["part"] = [0] if k % 4 == 1 else [0, n - 1][: max(1, n // 2)]      # qubit 0 only / both ends
+                out.add(ep="lowrank", n=n, kind="gauss", form=("nd", "list", "tuple")[k % 3], fam="flagforms", record=True,
+                        pform=DIV_PFORMS[k % len(DIV_PFORMS)], iso=("ccd", "csd")[k % 2], uni=("qsd", "csd")[(k // 2) % 2], **s)
+
+
 def diversity_cases(ctx):
     out = _DivList(ctx)
     div_unitary_cases(ctx, out)
     div_isometry_cases(ctx, out)
     div_lowrank_cases(ctx, out)
+    div_flagform_cases(ctx, out)
     return out.jobs
 
 
@@ -1510,6 +1559,8 @@ def div_key(spec):
     ep = spec["ep"]
     if ep == "unitary":
         o = f"unitary.cnot_count:{spec['dec']}:n={spec['n']}:iso={spec['iso']}:a2={int(spec['a2'])}"
+        if spec.get("isoform") or spec.get("a2form"):
+            o += f":forms=iso/{spec.get('isoform') or 'int'},apply_a2/{spec.get('a2form') or 'bool'}"
     elif ep == "isometry":
         o = f"isometry.cnot_count:{spec['scheme']}:n={spec['n']}:m={spec['m']}:{spec.get('shape', '2d')}"
     elif ep == "lowrank":
@@ -1628,6 +1679,15 @@ def evaluate_div(ctx, job, res, st):
     if failed:
         return
     est = est_ref
+    if "cx_canon" in res and cx is not None and not isinstance(res["cx_canon"], str) and cx != res["cx_canon"]:
+        fail(f"{key}:circuit={cx}:circuit-of-canonical-options={res['cx_canon']}", "the circuit synthesised with apply_a2 / iso in this "
+             "form has another CNOT count than the circuit synthesised with the canonical bool / int of the same value")
+        return
+    for opt_, f_ in (("apply_a2", spec.get("a2form")), ("iso", spec.get("isoform")), ("low_rank", spec.get("lrform") if spec.get("flagform") else None)):
+        if f_:
+            val_ = {"apply_a2": spec.get("a2"), "iso": spec.get("iso"), "low_rank": spec.get("lr", 0)}[opt_]
+            ctx.count(f"flagforms:{opt_}:{f_}")
+            ctx.count(f"flagforms:{opt_}:{f_}:{val_}")
     nontrivial = n >= (3 if ep == "unitary" else 2)
     sample = {"call": key, "estimate": est, "circuit_cx": cx, "structural": st, "calls": sorted(ests)}
     if cls == "structured":
@@ -1719,9 +1779,54 @@ def diversity_ties(ctx, jobs, results):
         ctx.count("diversity:tie:" + op["op"])
 
 
+def knill_smallphase_matrix(n, m, tiny, mode, seed):
+    """Columns of W diag(e^{i phi}) W^dagger, W Haar (generic eigenvectors), with eigenphases of size `tiny`: all of them /
+    two of them among generic ones / a single one next to exact ones."""
+    import numpy as np
+    dim = 2 ** n
+    w = haar(dim, seed)
+    ph = np.random.default_rng(seed).uniform(0.5, 2.5, dim)
+    if mode == "all":
+        ph = tiny * np.array([1, -2, 0.5, 3, 1, 1, 2, -1] * (dim // 8 + 1))[:dim]
+    elif mode == "mixed":
+        ph[:2] = [tiny, -2 * tiny]
+    else:
+        ph = np.zeros(dim)
+        ph[-1] = tiny
+    return (w @ np.diag(np.exp(1j * ph)) @ w.conj().T)[:, : 2 ** m]
+
+
+def knill_smallphase_probe(ctx):
+    """Knill's estimate must count exactly the eigenvectors the synthesis spends gates on: eigenphases just above the code's own
+    1e-7 cut (3e-7 .. 8e-6, far below any default isclose / allclose tolerance) with generic eigenvectors.  In-process, n = 2, 3."""
+    from qclib.isometry import decompose, cnot_count
+    cases = [(n, m, tiny, mode) for n in ((2, 3) if ctx.quick else (2, 3, 4)) for m in (n, n - 1) for tiny in (3e-7, 3e-6, 8e-6)
+             for mode in ("all", "mixed", "one")]
+    if ctx.quick:
+        cases = [c for i, c in enumerate(cases) if c[0] == 2 or i % 3 == ctx.rng.randrange(3)]
+    for n, m, tiny, mode in cases:
+        seed = ctx.rng.getrandbits(30)
+        key = f"isometry.cnot_count:knill:small-eigenphase:n={n}:m={m}:phase={tiny:g}:{mode}"
+        rep = {"call": "qclib.isometry.cnot_count(V, 'knill', 'estimate') vs cx count of decompose(V, 'knill')", "n": n, "m": m,
+               "tiny": tiny, "mode": mode, "seed": seed, "how": "V = tools/props/c10.py knill_smallphase_matrix(n, m, tiny, mode, seed)"}
+        ctx.count(f"boundary:knill-eigenphase-vs-1e-7:{tiny:g}:{mode}")
+        try:
+            v = knill_smallphase_matrix(n, m, tiny, mode, seed)
+            est = int(cnot_count(v.copy(), "knill", "estimate"))
+            cx = cx_count(decompose(v.copy(), "knill"))
+        except Exception as e:  # noqa: BLE001
+            ctx.fail(key + ":raises", f"{type(e).__name__}: {str(e)[:200]}", rep)
+            continue
+        if est != cx:
+            ctx.fail(key + f":diff={est - cx:+d}", f"estimate {est} != circuit {cx}", dict(rep, estimate=est, circuit=cx))
+        else:
+            ctx.ok(key, nontrivial=True, sample={"estimate": est, "circuit_cx": cx})
+
+
 def run(ctx):
     quick = ctx.quick
     gen_ties(ctx, big=not quick)
+    knill_smallphase_probe(ctx)
     cost_ties(ctx)
     jobs = []
     jobs += unitary_cases(ctx, 6 if quick else 7, 5 if quick else 6)
@@ -1756,6 +1861,7 @@ def search(ctx, hints):
             jobs.append(("unitary", op["n"], op["dec"], op["iso"], True, ctx.rng.getrandbits(30)))
         if op.get("op") == "ccdshape":
             jobs.append(("isometry", op["n"], op["m"], "ccd", ctx.rng.getrandbits(30), False))
+    knill_smallphase_probe(ctx)
     jobs += unitary_cases(ctx, 6, 5)
     jobs += isometry_cases(ctx, 6, 3)
     jobs += lowrank_cases(ctx, 4, 8, 4)
@@ -1764,4 +1870,15 @@ def search(ctx, hints):
 
 
 def replay(ctx, payload):
+    r = payload["replay"]
+    if "tiny" in r and "mode" in r:         # knill_smallphase_probe case
+        from qclib.isometry import decompose, cnot_count
+        v = knill_smallphase_matrix(r["n"], r["m"], r["tiny"], r["mode"], r["seed"])
+        est, cx = int(cnot_count(v.copy(), "knill", "estimate")), cx_count(decompose(v.copy(), "knill"))
+        key = f"isometry.cnot_count:knill:small-eigenphase:n={r['n']}:m={r['m']}:phase={r['tiny']:g}:{r['mode']}"
+        if est != cx:
+            ctx.fail(key + f":diff={est - cx:+d}", f"estimate {est} != circuit {cx}", r)
+        else:
+            ctx.ok(key, nontrivial=True)
+        return
     oracle(ctx, [tuple(payload["replay"]["job"])])      # ("div", spec) jobs: the spec dict survives the JSON round trip
